@@ -1,6 +1,10 @@
-(* Correspondence for C04: the harness fed rule sets to the real
-   hatypes.CreateMaps(order).AddMap(..).AddHostnamePathMapping(..) and recorded, per
-   MatchFile of MatchFiles(), Method(), Lower() and the Key/Value of Values().
+(* Correspondence for C04: the harness fed rule sets to the real code (a haproxy.Instance
+   driven through Config + HAProxyUpdate, or hatypes.CreateMaps(order).AddMap(..).
+   AddHostnamePathMapping(..) written with the real map template) and recorded the files
+   AS RENDERED: the map files read back from disk (key/value per line, in file order) in
+   the order, with the method and the lower flag, of the req.backend lookup chain of the
+   rendered haproxy.cfg (of MatchFiles() when only the map template is run). The harness
+   has already checked that they equal MatchFiles().Values() (C04/rendered-map-differs).
    A case is fine when
    - the model `rebuild_current` (hosts visited in sorted order, as the code does since
      /repo 5f31221) yields exactly the observed files (method, lower flag, ordered
@@ -16,7 +20,7 @@ Record c04case := {
   cid : N;
   corder : list mtype;                                   (* path-type-order *)
   cfed : list (string * string * mtype * N * string);   (* host, path, type, HostPath.order, target: addTarget calls in order *)
-  cfiles : list (meth * bool * list (string * string)); (* observed MatchFiles() *)
+  cfiles : list (meth * bool * list (string * string)); (* the rendered files *)
   cstrict : bool  (* false for the malformed stream (paths with "//", '#', '?', no leading
                      slash, upper-case hosts): only the model is compared there *)
 }.
